@@ -141,6 +141,34 @@ def block_size(src_root, problems):
         return None
 
 
+def tail_shape(node, n):
+    """Shape hash of a function with its first n statements dropped (they are translated, the rest is followed by hand)."""
+    node = F.strip_doc(node)
+    fn = node.body[0]
+    fn.body = fn.body[n:] or [ast.Pass()]
+    return hashlib.sha1(ast.dump(node).encode()).hexdigest()[:16]
+
+
+def check_tail(src_root, pins_file, n_by_qual, problems):
+    with open(pins_file) as f:
+        pins = json.load(f)
+    summary = {}
+    for rel, quals in pins.items():
+        try:
+            m = F.Module(src_root, rel)
+        except (OSError, SyntaxError) as e:
+            problems.append('cannot parse %s: %s' % (rel, e))
+            continue
+        for q, want in quals.items():
+            node = m.find(q)
+            got = tail_shape(node, n_by_qual[q]) if node is not None else 'missing'
+            summary['%s:%s[tail]' % (rel, q)] = got
+            if got != want:
+                problems.append('shape pin (translated first statements dropped) %s:%s changed (%s -> %s): the hand-written '
+                                'model relies on the previous text' % (rel, q, want, got))
+    return summary
+
+
 def compute_blind(src_root, spec):
     return {rel: {q: blind_shape(F.Module(src_root, rel).find(q)) for q in quals} for rel, quals in spec.items()}
 
